@@ -927,8 +927,12 @@ class BuiltinMixin:
     def coll_method(self, bound, args, kwargs, path, node=None):
         coll, name = bound.coll, bound.name
         ln = getattr(node, 'lineno', None)
-        if name in ('append', 'extend', 'add', 'pop', 'insert', 'remove', 'clear', 'update'):
+        if name in ('append', 'extend', 'add', 'pop', 'insert', 'remove', 'clear', 'update') and not isinstance(coll, (VHeapMap, VAttrib)):
             return self.mutate_coll(bound, args, path, node)
+        if isinstance(coll, (VHeapMap, VAttrib)):
+            if name == 'get':
+                return self.map_get(coll, args[0], path, ln, default=args[1] if len(args) > 1 else VNone())
+            raise OutOfReach(f'method {name} on a read-only map')
         if isinstance(coll, VDict):
             if name == 'keys':
                 return VList(self.concrete_items(coll), STR)
